@@ -12,7 +12,7 @@ from matrices import dependent_rows, m_int, to_tensor
 from prop_C03 import TRUSTED
 from prop_C08 import attempt, relerr, well_conditioned
 
-INVARIANT = {"UPGrad", "DualProj", "MGDA", "Mean", "Sum", "AlignedMTL", "IMTLG", "ConFIG", "CAGrad", "TrimmedMean",
+INVARIANT = {"UPGrad", "DualProj", "MGDA", "Mean", "Sum", "AlignedMTL", "IMTLG", "ConFIG", "CAGrad", "TrimmedMean", "TrimmedMean0",
              "Krum", "GradDrop", "Constant"}
 
 
